@@ -12,13 +12,67 @@ SHRINK_KEY = "ops"
 RULE = ("sequential histories over 1-4 handles with capacities 0-9 and 64 (non powers of two included), every history ending in a full drain (pops on every handle until idle, then the shared queue) and a length read; "
         "every call under a 2.5 s watchdog (expiry = observation `diverged`); non-trivial = the model's run "
         "overflowed, stole, consulted the shared queue on a tick, or popped idle; distinct = distinct op list")
-term = queues.term
-nontrivial = queues.nontrivial
-distribution = queues.distribution
+
+
+from ..core import gz, glist, gbool
+
+
+def conc_case(rng, three=True):
+    """2-3 threads, 1-2 shared calls each, on the ordered or the plain queue"""
+    nthreads = rng.choice([2, 2, 2, 3]) if three else 2
+    percall = 2 if nthreads == 2 else 1
+    x = [0]
+
+    def call():
+        if rng.random() < 0.6:
+            x[0] += 1
+            return {"c": "push", "p": str(rng.choice([0, 0, 1, -1])), "x": x[0]}
+        return {"c": "pop"}
+    progs = [[call() for _ in range(rng.randint(1, percall))] for _ in range(nthreads)]
+    if not any(c["c"] == "push" for p in progs for c in p):
+        x[0] += 1
+        progs[0][0] = {"c": "push", "p": "0", "x": x[0]}
+    return {"area": "conc", "isolate": False, "timeout_ms": 60000, "queue": rng.choice(["ordered", "plain"]),
+            "progs": progs, "max_execs": 20000, "kind": "conc", "ops": []}
+
+
+def _call(c):
+    return "CPush %s %s" % (gz(c["p"]), gz(c["x"])) if c["c"] == "push" else "CPop"
+
+
+def _outcome(o):
+    res = glist([glist(["None" if r is None else "(Some %s)" % gz(r) for r in t]) for t in o["res"]])
+    return "{| o_res := %s; o_len := %s; o_drained := %s |}" % (res, gz(o["len"]), glist([gz(v) for v in o["drained"]]))
+
+
+def term(case, obs):
+    if case.get("area") != "conc":
+        return "(inl %s)" % queues.term(case, obs)
+    o = obs[0] if obs and isinstance(obs[0], dict) else {"outcomes": [], "complete": False}
+    return ("(inr {| cc_plain := %s; cc_progs := %s; cc_impl := %s; cc_complete := %s |})"
+            % (gbool(case["queue"] == "plain"), glist([glist([_call(c) for c in p]) for p in case["progs"]]),
+               glist([_outcome(x) for x in o["outcomes"]]), gbool(bool(o.get("complete")))))
+
+
+def nontrivial(case, obs, verdict):
+    if case.get("area") == "conc":
+        return bool(obs) and isinstance(obs[0], dict) and obs[0].get("executions", 0) >= 6
+    return queues.nontrivial(case, obs, verdict)
+
+
+def distribution(results):
+    seq = [(c, o, v) for c, o, v in results if c.get("area") != "conc"]
+    d = queues.distribution(seq)
+    conc = [(c, o, v) for c, o, v in results if c.get("area") == "conc"]
+    d["concurrent_programs"] = len(conc)
+    d["interleavings_executed"] = sum(o[0].get("executions", 0) for c, o, v in conc if o and isinstance(o[0], dict))
+    d["distinct_outcomes"] = sum(len(o[0].get("outcomes", [])) for c, o, v in conc if o and isinstance(o[0], dict))
+    d["plain_queue_programs"] = sum(1 for c, o, v in conc if c["queue"] == "plain")
+    return d
 
 
 def gen(rng, tier):
-    n = {"quick": 120, "thorough": 1500, "search": 600}[tier]
+    n = {"quick": 120, "thorough": 1500, "search": 150}[tier]
     cases = []
     for i in range(n):
         k = i % 4
@@ -30,6 +84,7 @@ def gen(rng, tier):
             cases.append(queues.random_history(rng, rng.randint(5, 40), style="ties", drain=True))
         else:
             cases.append(queues.random_history(rng, rng.randint(1, 25), drain=True, caps=[0, 1, 2]))
+    cases += [conc_case(rng, three=(tier != "quick")) for _ in range({"quick": 10, "thorough": 150, "search": 0}[tier])]
     return cases
 
 PINNED = ['C03_holds', 'C03_wf_needed']
